@@ -390,7 +390,7 @@ func (d *EmitGrid) Build() *World {
 	px := w.Deploy("proxy", CompileDir(Repo, "proxy"), nil)
 	ac := CompileDir(Repo, "alphabet")
 	// two Alphabet contracts (different manifest names give different hashes)
-	for _, idx := range []int{0, 2} {
+	for _, idx := range []int{0, 2, 5} { // index 5 has no node of its own on a 4-key committee
 		c := &Compiled{NEF: ac.NEF, Manifest: cloneManifestWithName(ac, fmt.Sprintf("alphabet%d", idx))}
 		w.Deploy(fmt.Sprintf("alphabet%d", idx), c, []any{false, dn.Hash, px.Hash, fmt.Sprintf("alph%d", idx), int64(idx), int64(4)})
 	}
@@ -445,6 +445,11 @@ func (d *EmitGrid) Cases(tier string) []GridCase {
 			for _, sg := range []string{"other", "alpha", "stranger"} {
 				add(emitCase{Kind: "emit", Index: idx, IR: ir, G: 1000, Signer: sg})
 			}
+		}
+	}
+	for ir := 1; ir <= 3; ir++ {
+		for _, sg := range []string{"wrapped", "other", "alpha", "stranger"} {
+			add(emitCase{Kind: "emit", Index: 5, IR: ir, G: 1000, Signer: sg})
 		}
 	}
 	for _, t := range []string{"proxy", "processing", "alphabet0"} {
@@ -510,6 +515,8 @@ func (d *EmitGrid) Eval(x *Exec, root *Node, gc GridCase) GridResult {
 	switch c.Signer {
 	case "own":
 		signer = w.Members[c.Index].Hash
+	case "wrapped":
+		signer = w.Members[c.Index%4].Hash // the member an index taken modulo the committee size would select
 	case "other":
 		signer = w.Members[(c.Index+1)%4].Hash
 	case "alpha":
@@ -529,7 +536,7 @@ func (d *EmitGrid) Eval(x *Exec, root *Node, gc GridCase) GridResult {
 	}
 	o := do("emit", Script(al, "emit"), 1, signer)
 	after := cur
-	wantOK := c.Signer == "own" && c.G >= 2
+	wantOK := c.Signer == "own" && c.G >= 2 && c.Index < 4
 	if o.Halt != wantOK {
 		where["signer"], where["g"] = c.Signer, c.G
 		vs = append(vs, Viol("emit-outcome", fmt.Sprintf("%s: halt=%v fault=%q, expected success=%v", gc.Name, o.Halt, o.Fault, wantOK), where))
